@@ -586,6 +586,10 @@ def run(tier, procs=None, only=None):
     )
 
 
+# every real-library oracle of this property (each returns (reproduced, detail)); used to confirm structural facts that carry no replay of their own
+ALL_REPLAYS = [replay_scores, lambda c: replay_constant('zncc')(c), lambda c: replay_constant('fsc')(c), replay_cutoff]
+
+
 def replay(data):
     key = data.get("key", "")
     if "finite-score" in key:
